@@ -21,7 +21,7 @@ fn v_atom(a: &asp::Atom) -> String {
     }
 }
 
-fn v_rule(r: &asp::Rule) -> String {
+pub fn v_rule(r: &asp::Rule) -> String {
     let head = match &r.head { asp::Head::Basic(a) => v_atom(a), asp::Head::Choice(a) => format!("{{ {} }}", v_atom(a)), asp::Head::Falsity => String::new() };
     let body: Vec<String> = r.body.formulas.iter().map(|f| match f {
         asp::AtomicFormula::Literal(l) => format!("{}{}", match l.sign { asp::Sign::NoSign => "", asp::Sign::Negation => "not ", asp::Sign::DoubleNegation => "not not " }, v_atom(&l.atom)),
